@@ -93,10 +93,16 @@ def y_summ(s, ind):
     return out
 
 
+YTRUE = ["true", "true", "true", "True", "TRUE", "yes", "Yes", "YES", "on", "On", "ON", "y", "Y"]
+YFALSE = ["false", "False", "FALSE", "no", "No", "NO", "off", "Off", "OFF", "n", "N"]
+
+
 def to_yaml(cfg):
     if cfg == "unparsable":
         return "mappings:\n- match: [unclosed\n  name: x\n"
     d, rules = cfg
+    import zlib
+    salt = zlib.crc32(b"|".join((r["match"] or b"") + b">" + (r["name"] or b"") for r in rules) + (b"D" if d is not None else b"-"))
     out = ""
     if d is not None:
         out += "defaults:\n"
@@ -104,7 +110,9 @@ def to_yaml(cfg):
             if d[fld] is not None:
                 out += f"  {key}: {ystr(d[fld])}\n"
         if d["disable_ordering"]:
-            out += "  glob_disable_ordering: true\n"
+            out += "  glob_disable_ordering: %s\n" % YTRUE[salt % len(YTRUE)]
+        elif salt % 5 == 0:
+            out += "  glob_disable_ordering: %s\n" % YFALSE[(salt // 5) % len(YFALSE)]      # an explicit false
         if d["ttl"]:
             out += f"  ttl: {dur(d['ttl'])}\n"
         if d["legacy_buckets"] is not None:
@@ -126,7 +134,9 @@ def to_yaml(cfg):
         if r["labels"]:
             out += "  labels:\n" + "".join(f"    {ystr(k)}: {ystr(v)}\n" for k, v in r["labels"])
         if r["honor"]:
-            out += "  honor_labels: true\n"
+            out += "  honor_labels: %s\n" % YTRUE[(salt // 7) % len(YTRUE)]
+        elif salt % 11 == 0 and len(rules) > 1:
+            out += "  honor_labels: %s\n" % YFALSE[(salt // 11) % len(YFALSE)]
         for key, fld in (("observer_type", "observer_type"), ("timer_type", "timer_type"), ("match_type", "match_type"),
                          ("action", "action"), ("match_metric_type", "mmt")):
             if r[fld] is not None:
